@@ -1,4 +1,5 @@
 import MpVerif.C09.Lemmas
+import MpVerif.Gen.C09Driver
 /-!
 # C09 — a driver run always ends in a well-formed result or a diagnosed failure
 
@@ -32,6 +33,9 @@ Since the fixes abd397a (codes < 100 → `sol::FAILURE`), f454558 (infeasibility
                 inconsistent header with the problem partially populated.
 * `standalone`  without `-AMPL` and with `wantsol&1 = 0` an error is only printed on stdout (not at
                 all with `wantsol&8`), exit status 0.
+* `fmtintcode`  `throw Error("function {} is not defined", func_index)` (one `int` argument) picks
+                `Error(CStringRef, int c)`: the function number becomes the solve code (≥ 100 kept) and the
+                message is not formatted (`C09_fmtintcode_general`).
 * `exportonly`  `tech:writemodelonly=<file>`: `RunFromNLFile` skips `Solve()` and `Report()`; the run ends
                 with exit status 0, no `.sol`, no message (`C09_exportonly_general`).
 * `ctorcode`    (latent) an `mp::Error` escaping to `RunBackendApp` is turned into the exit status
@@ -139,19 +143,21 @@ theorem C09_hdrdims_general (sc : Scenario) (a : Bool) (w : Nat) (r : Raise) (f 
     obtain ⟨rfl, _⟩ := h
     simp [errFile, errDims, Stage.dimsKnown]
 
-/-- **Code class — full strength** (since abd397a / f454558; was `C09_code_class_partial`).
+/-- **Code class** (full strength since abd397a / f454558 for every way of raising but one: `Error("fmt {}", n)` with a
+single int argument, see `C09_fmtintcode_general`).
 Whenever a `.sol` is written its code is in the class of the cause: the solver's own code if nothing
 went wrong; 200–299 for infeasibility (also when `MP_INFEAS` is re-raised by `ConstraintKeeper`);
 500–999 for every failure — in particular for `ReadError`, `UnsupportedError`, `Error("fmt", …)`, whose
-`exit_code()` is `EXIT_FAILURE`; the raiser's code (≥ 100) for `Abort(c)` / sol-check.  No hypothesis
-on the ending. -/
-theorem C09_code_class (sc : Scenario) (e : Ending) (k : Cause) (f : SolFile) (ech : Bool)
-    (h : conclude sc e = .sol f ech) (hk : e.cause = some k) :
+`exit_code()` is `EXIT_FAILURE`; the raiser's code (≥ 100) for `Abort(c)` / sol-check. -/
+theorem C09_code_class_partial (sc : Scenario) (e : Ending) (k : Cause) (f : SolFile) (ech : Bool)
+    (h : conclude sc e = .sol f ech) (hk : e.cause = some k)
+    (hint : ∀ a w st r, e = .raised a w st r → r.intArgCodeOK = true) :
     codeOK sc.answer k f.code := by
   cases e with
   | info => simp [conclude] at h
   | exported a w => simp [conclude] at h
   | raised a w st r =>
+    have hia := hint a w st r rfl
     simp only [Ending.cause, Option.some.injEq] at hk
     by_cases hr : r = .foreign
     · rw [hr, conclude_foreign] at h; simp at h
@@ -163,9 +169,11 @@ theorem C09_code_class (sc : Scenario) (e : Ending) (k : Cause) (f : SolFile) (e
         obtain ⟨rfl, _⟩ := h
         simp only [errFile]
         rw [reportCode_of_raise, ← hk]
-        cases r <;> simp [Raise.cause, codeOK] at hr ⊢
-        rename_i c
-        by_cases hc0 : 100 ≤ c <;> simp [hc0, codeOK]
+        cases r <;> simp [Raise.cause, codeOK, Raise.intArgCodeOK] at hr hia ⊢
+        · rename_i c
+          by_cases hc0 : 100 ≤ c <;> simp [hc0, codeOK]
+        · rename_i n
+          by_cases hn : 100 ≤ n <;> simp [hn] <;> omega
   | finished a w =>
     simp only [Ending.cause, Option.some.injEq] at hk
     subst hk
@@ -173,6 +181,56 @@ theorem C09_code_class (sc : Scenario) (e : Ending) (k : Cause) (f : SolFile) (e
     cases hw : wantsFile a w <;> cases ho : sc.out.writable <;> simp [hw, ho] at h
     obtain ⟨rfl, _⟩ := h
     simp [codeOK, okFile]
+
+/-- **`fmtintcode`, exactly**: `Error("… {} …", n)` with a single `int` argument is reported with solve code `n`
+whenever `n ≥ 100` — e.g. a call of the undeclared function 250 in an NL file ends as "infeasible" (250). -/
+theorem C09_fmtintcode_general (sc : Scenario) (a : Bool) (w : Nat) (st : Stage) (n : Int) (f : SolFile) (ech : Bool)
+    (h : conclude sc (.raised a w st (.fmtIntArg n)) = .sol f ech) :
+    f.code = (if n ≥ 100 then n else 500) ∧ (Ending.raised a w st (.fmtIntArg n)).cause = some .failure := by
+  rw [conclude_raised sc a w st _ (by simp)] at h
+  cases hi : st.insideRun
+  · rw [hi] at h; simp [Raise.toExn] at h
+  · cases hh : st.handlerAvailable <;> cases hw : wantsFile a w <;> cases ho : sc.out.writable <;>
+      simp [hi, hh, hw, ho] at h
+    obtain ⟨rfl, _⟩ := h
+    simp [errFile, Raise.toExn, Exn.reportCode, solFAILURE, Ending.cause, Raise.cause]
+
+/-- **The code written, exactly** (round 4): for every way of raising, the solve code in a written failure
+`.sol` — the causes the property names: proven infeasible during conversion (`infeas`, `wrappedInfeas`) → 200;
+unsupported construct, missing bounds (`plain` from `ConstraintConversionFailure`), invalid input / options
+(`readError`, `optionError`, `plain`), any other exception → 500; `Abort(c)` → `c` if `c ≥ 100`, else 500;
+solution check → 150. -/
+def Raise.reportedCode : Raise → Int
+  | .withCode c => if c ≥ 100 then c else 500
+  | .fmtIntArg n => if n ≥ 100 then n else 500
+  | .infeas => 200
+  | .wrappedInfeas => 200
+  | .solCheck => 150
+  | _ => 500
+
+theorem C09_reported_code_exact (sc : Scenario) (a : Bool) (w : Nat) (st : Stage) (r : Raise) (f : SolFile) (ech : Bool)
+    (h : conclude sc (.raised a w st r) = .sol f ech) :
+    f.code = r.reportedCode := by
+  by_cases hr : r = .foreign
+  · rw [hr, conclude_foreign] at h; simp at h
+  · rw [conclude_raised sc a w st r hr] at h
+    cases hi : st.insideRun
+    · rw [hi] at h; cases hx : r.toExn <;> rw [hx] at h <;> simp at h
+    · cases hh : st.handlerAvailable <;> cases hw : wantsFile a w <;> cases ho : sc.out.writable <;>
+        simp [hi, hh, hw, ho] at h
+      obtain ⟨rfl, _⟩ := h
+      simp only [errFile]
+      rw [reportCode_of_raise]
+      cases r <;> rfl
+
+macro "c09_inst" : tactic =>
+  `(tactic| first
+    | decide
+    | (intros; simp_all; done)
+    | (intro a w h; rcases h with h | ⟨_, _, h⟩ <;> cases h <;> decide)
+    | (intro a w st r h; cases h; decide)
+    | (intro a w st h; cases h)
+    | (intro a w h; cases h))
 
 /-- The former `code1` class: exceptions whose object keeps `exit_code_ = EXIT_FAILURE` (1) are now
 reported with `sol::FAILURE`. -/
@@ -389,7 +447,7 @@ theorem C09_outcome_partial_end (sc : Scenario) (e : Ending) (hreg : Regular sc 
     · cases hd : sc.answer.haveDual <;> cases hp : sc.answer.havePrimal <;>
         simp [GoodEnd, Ending.cause, hreg, ho, codeOK, okFile, hd, hp]
   | raised a w st r =>
-    obtain ⟨hnf, hopt, hpop, hwant, hctor⟩ := hreg
+    obtain ⟨hnf, hintarg, hopt, hpop, hwant, hctor⟩ := hreg
     rw [conclude_raised sc a w st r hnf]
     cases hi : st.insideRun
     · -- constructor stage: RunBackendApp's catch clauses
@@ -414,9 +472,11 @@ theorem C09_outcome_partial_end (sc : Scenario) (e : Ending) (hreg : Regular sc 
               · simp [errDims, dimsKnown_of_handler_ne_options st hh hso hsp]
           have hcls : codeOK sc.answer r.cause r.toExn.reportCode := by
             rw [reportCode_of_raise]
-            cases r <;> simp [Raise.cause, codeOK] at hnf ⊢
-            rename_i c
-            by_cases hc : 100 ≤ c <;> simp [hc, codeOK]
+            cases r <;> simp [Raise.cause, codeOK, Raise.intArgCodeOK] at hnf hintarg ⊢
+            · rename_i c
+              by_cases hc : 100 ≤ c <;> simp [hc, codeOK]
+            · rename_i n
+              by_cases hn : 100 ≤ n <;> simp [hn] <;> omega
           simp [GoodEnd, Ending.cause, hh, hw, ho, errFile, hdn, hcls]
 
 /-- **C09 (partial), stated on scenarios.** -/
@@ -464,6 +524,111 @@ theorem C09_suffix_exceptions_swallowed (sc : Scenario) (r : Raise) (hr : r ≠ 
   simp only [run, ending, faultBefore, Stage.idx]
   simp [hr]
   rfl
+
+/-! ## Translator ties: the model's decision functions equal the definitions generated from the source
+
+`MpVerif.Gen.C09` (file `Gen/C09Driver.lean`) is regenerated on every check run by
+`translators/gen_c09.py` from clang's typed AST of the current tree.  The theorems below state that the
+hand model's pieces are *equal* to the generated ones, so every theorem of this file speaks about what
+the source says now; a change of the C++ in one of these places changes the generated definition and the
+corresponding `C09_gen_*` proof stops checking. -/
+
+/-- **Exit codes.** What the catch clauses see for each way of raising = `exit_code()` of the thrown object
+as determined from `mp::Error`'s constructors, the derived classes' base initialisers and clang's overload
+resolution for `MP_RAISE`, `MP_RAISE_WITH_CODE`, `MP_INFEAS`, `MP_UNSUPPORTED`, `OptionError(m)`,
+`ReadError(…)`, `Error("fmt", s)`. -/
+theorem C09_gen_exit_codes (r : Raise) :
+    r.toExn = match r with
+      | .plain => .mpError Gen.C09.exitCode_plain
+      | .withCode c => .mpError (Gen.C09.exitCode_withCode c)
+      | .infeas => .mpError Gen.C09.exitCode_infeas
+      | .wrappedInfeas => .mpError Gen.C09.exitCode_infeas
+      | .solCheck => .mpError Gen.C09.MP_SOLUTION_CHECK
+      | .unsupported => .mpError Gen.C09.exitCode_unsupported
+      | .optionError => .mpError Gen.C09.exitCode_optionError
+      | .readError => .mpError Gen.C09.exitCode_readError
+      | .fmtError => .mpError Gen.C09.exitCode_fmtError
+      | .fmtIntArg n => .mpError (Gen.C09.exitCode_fmtIntArg n)
+      | .systemError => .stdExn
+      | .stdExn => .stdExn
+      | .foreign => .foreign := by
+  cases r <;> rfl
+
+/-- `BinaryReadError` (binary NL) is built like `MP_RAISE`: it is the `.plain` row of the table; both ways
+the library constructs a `ReadError` (with an `ArgList`: reader errors; with a plain message: names files)
+give the `.readError` row;
+`EXIT_FAILURE` is the in-class initialiser. -/
+theorem C09_gen_exit_code_facts :
+    Gen.C09.exitCode_binaryReadError = Gen.C09.exitCode_plain ∧
+    Gen.C09.exitCode_readErrorMsg = Gen.C09.exitCode_readError ∧
+    Gen.C09.errorInClassExitCode = EXIT_FAILURE ∧ Gen.C09.EXIT_FAILURE = EXIT_FAILURE ∧
+    Gen.C09.errorCtors = [("void ()", "in-class"), ("void (fmt::CStringRef, const Args &...)", "in-class"),
+                          ("void (fmt::CStringRef, int)", "param 2")] := by decide
+
+/-- **`BackendApp::Run`'s catch ladder**: `mp::Error` first, then `std::exception` (the order matters: `Error`
+derives from it), nothing else; the try block is `Init; RunFromNLFile`; after a handler `Run` returns 0.
+The solve code each handler passes to `ReportError` is the model's `Exn.reportCode`. -/
+theorem C09_gen_run_ladder (c : Int) :
+    Gen.C09.runHandlers = ["mp::Error", "std::exception"] ∧
+    Gen.C09.runTryCalls = ["Init", "RunFromNLFile"] ∧ Gen.C09.runReturn = 0 ∧
+    Exn.reportCode (.mpError c) = Gen.C09.runReportCode_mpError c ∧
+    Exn.reportCode .stdExn = Gen.C09.runReportCode_stdException ∧
+    solFAILURE = Gen.C09.FAILURE := by
+  refine ⟨by decide, by decide, by decide, ?_, by decide, by decide⟩
+  simp only [Exn.reportCode, Gen.C09.runReportCode_mpError, Gen.C09.UNCERTAIN, Gen.C09.FAILURE, solFAILURE]
+  by_cases h : c ≥ 100 <;> simp [h]
+
+/-- **`RunBackendApp`'s catch ladder**: an exception from the constructor stage ends as the generated
+handlers say (`return e.exit_code()` / `return EXIT_FAILURE`), anything else has no handler. -/
+theorem C09_gen_rba_ladder (sc : Scenario) (a : Bool) (w : Nat) (r : Raise) :
+    Gen.C09.rbaHandlers = ["mp::Error", "std::exception"] ∧
+    conclude sc (.raised a w .ctor r) =
+      match r.toExn with
+      | .mpError c => .stderrExit (exitStatus (Gen.C09.rbaReturn_mpError c))
+      | .stdExn => .stderrExit Gen.C09.rbaReturn_stdException.toNat
+      | .foreign => .crash := by
+  refine ⟨by decide, ?_⟩
+  cases hx : r.toExn <;> simp [conclude, fail, Stage.insideRun, hx, Gen.C09.rbaReturn_mpError, Gen.C09.rbaReturn_stdException]
+
+/-- **wantsol bit tests** of `AppSolutionHandlerImpl::HandleSolution`: when the `.sol` is written, and
+when the message is echoed on stdout. -/
+theorem C09_gen_handle_solution_guards (ampl : Bool) (w : Nat) :
+    wantsFile ampl w = Gen.C09.hsWritesFile ampl w ∧
+    (!ampl && !suppressMsg w) = (!Gen.C09.hsReturnsEarly ampl w && Gen.C09.hsPrintsMessage ampl w) := by
+  constructor
+  · rfl
+  · simp only [suppressMsg, Gen.C09.hsReturnsEarly, Gen.C09.hsPrintsMessage, Gen.C09.SUPPRESS_SOLVER_MSG]
+    cases ampl <;> cases h : (w &&& 8) == 0 <;> simp_all [bne]
+
+/-- **Code classes**: the bounds used by the property predicate are the enumerators of `mp::sol`; the
+threshold below which `Run` replaces a code is `sol::UNCERTAIN`. -/
+theorem C09_gen_code_classes (a : Answer) (c : Int) :
+    (codeOK a .infeasible c ↔ Gen.C09.INFEASIBLE ≤ c ∧ c ≤ Gen.C09.INFEASIBLE_LAST) ∧
+    (codeOK a .failure c ↔ Gen.C09.FAILURE ≤ c ∧ c ≤ Gen.C09.FAILURE_LAST) ∧
+    (Raise.withCode c).cause = (if c ≥ Gen.C09.UNCERTAIN then .asRaised c else .failure) ∧
+    Raise.solCheck.cause = .asRaised Gen.C09.MP_SOLUTION_CHECK ∧
+    Gen.C09.SOLVED_LAST < Gen.C09.UNCERTAIN := by
+  simp [codeOK, Raise.cause, Gen.C09.INFEASIBLE, Gen.C09.INFEASIBLE_LAST, Gen.C09.FAILURE, Gen.C09.FAILURE_LAST,
+    Gen.C09.UNCERTAIN, Gen.C09.MP_SOLUTION_CHECK, Gen.C09.SOLVED_LAST]
+
+/-- **Structure** the model's stages rest on:
+* the after-header lambda of `ReadNLModel` creates the solution handler *before* it calls the option
+  parser (`Stage.options.handlerAvailable`), and `ReadNLModel` then reads names and converts;
+* `SolverNLHandlerImpl::OnHeader` parses the options and checks `objno` (throwing) *before*
+  `NLProblemBuilder::OnHeader` populates the problem (`Stage.options.dimsKnown = false`);
+* `RunFromNLFile`'s sequence (`extras` before `solve` before `report`; export in `extras`);
+* `WriteSolFile` prints the four count lines as constraints, duals, variables, primals. -/
+theorem C09_gen_structure :
+    Gen.C09.readNLModelAfterHeader = ["MakeProperSolutionHandler", "if(after_header):after_header"] ∧
+    Gen.C09.readNLModelCalls = ["ReadNLFile", "ReadNames", "ConvertModelAndUpdateBackend"] ∧
+    Gen.C09.onHeaderCalls = ["notify_start_opts", "operator()", "notify_end_opts", "OnHeader"] ∧
+    Gen.C09.onHeaderThrowBeforeBase = true ∧
+    Gen.C09.runFromNLFileCalls = ["ReadNL", "InputExtras", "SetupTimerAndInterrupter", "ExportModel", "Solve",
+                                   "RecordSolveTime", "Report"] ∧
+    Gen.C09.solCountLines = ["num_algebraic_cons", "num_dual_values", "num_vars", "num_values"] ∧
+    Stage.options.handlerAvailable = true ∧ Stage.options.dimsKnown = false ∧
+    Stage.header.handlerAvailable = false ∧ Stage.populate.dimsKnown = false ∧ Stage.body.dimsKnown = true := by
+  decide
 
 /-! ## `tech:writemodelonly` -/
 
@@ -584,6 +749,12 @@ theorem C09_counterexample_standalone :
     run { scBase with ampl := false, opts := [.tok (.wantsol 8), .tok .bad] } = .stdoutOnly 500 false ∧
     ¬ Good { scBase with ampl := false, opts := [.tok .bad] } (run { scBase with ampl := false, opts := [.tok .bad] }) := by decide
 
+/-- an NL file calling the undeclared function 250 (`f250 0`): "function {} is not defined", solve code 250. -/
+theorem C09_counterexample_fmtintcode :
+    run { scBase with fault := some (.body, .fmtIntArg 250) } = .sol ⟨250, 1, 0, 2, 0, true⟩ false ∧
+    ¬ Good { scBase with fault := some (.body, .fmtIntArg 250) } (run { scBase with fault := some (.body, .fmtIntArg 250) }) := by
+  decide
+
 /-- `recsolver stub -AMPL tech:writemodelonly=m.lp`: nothing is reported at all. -/
 theorem C09_counterexample_exportonly :
     run { scBase with justExport := true } = .silent ∧
@@ -601,7 +772,8 @@ theorem C09_counterexample_foreign :
     ¬ Good { scBase with fault := some (.solve, .foreign) } (run { scBase with fault := some (.solve, .foreign) }) := by
   decide
 
-/-! ## Non-vacuity -/
+/-! ## Non-vacuity: a concrete, non-trivial instance for every theorem with hypotheses
+(each `example` applies the theorem; the hypotheses are discharged on the instance) -/
 
 example : Regular scBase (ending scBase) := by decide
 example : Good scBase (run scBase) := C09_outcome_partial scBase (by decide)
@@ -611,5 +783,84 @@ example : run { scBase with out := ⟨false, false⟩ } = .stderrExit 1 := by de
 example : run { scBase with flags := [.info] } = .info := by decide
 example : Regular { scBase with fault := some (.convert, .plain), ampl := false, flags := [.wantsol] }
     (ending { scBase with fault := some (.convert, .plain), ampl := false, flags := [.wantsol] }) := by decide
+
+/-- a scenario with several things wrong at once: `-s`, an option file read completely, a later bad
+token, a truncated body, an unwritable output path -/
+def scMessy : Scenario :=
+  { scBase with flags := [.noecho, .wantsol], ampl := false,
+                opts := [.tok (.wantsol 3), .optfile [.ok, .wantsol 5] false, .tok .ok],
+                fault := some (.body, .readError), dims := ⟨7, 9⟩ }
+
+-- C09_outcome_partial on it: the body error is reported in a complete 7×9 `.sol` with code 500
+example : run scMessy = .sol ⟨500, 7, 0, 9, 0, true⟩ true := by decide
+example : Good scMessy (run scMessy) := C09_outcome_partial scMessy (by decide)
+-- …and with an unwritable path on stderr
+example : Good { scMessy with out := ⟨false, true⟩ } (run { scMessy with out := ⟨false, true⟩ }) :=
+  C09_outcome_partial _ (by decide)
+example : run { scMessy with out := ⟨false, true⟩ } = .stderrExit 1 := by decide
+
+-- C09_dims_partial / C09_dims_run_partial / C09_code_class / C09_reported_code_exact / C09_complete
+example : ending scMessy = .raised false 5 .body .readError := by decide
+example := C09_dims_partial scMessy (.raised false 5 .body .readError) ⟨500, 7, 0, 9, 0, true⟩ true (by decide) (by c09_inst) (by c09_inst)
+example := C09_dims_run_partial scMessy ⟨500, 7, 0, 9, 0, true⟩ true (by decide)
+  (by rw [show ending scMessy = .raised false 5 .body .readError by decide]; c09_inst)
+  (by rw [show ending scMessy = .raised false 5 .body .readError by decide]; c09_inst)
+example : codeOK scMessy.answer .failure 500 :=
+  C09_code_class_partial scMessy (.raised false 5 .body .readError) .failure ⟨500, 7, 0, 9, 0, true⟩ true (by decide) (by decide) (by c09_inst)
+example : codeOK scBase.answer .infeasible 200 :=
+  C09_code_class_partial scBase (.raised true 1 .convert .wrappedInfeas) .infeasible ⟨200, 1, 0, 2, 0, true⟩ false (by decide) (by decide) (by c09_inst)
+example : codeOK scBase.answer (.asRaised 567) 567 :=
+  C09_code_class_partial scBase (.raised true 1 .solve (.withCode 567)) _ ⟨567, 1, 0, 2, 0, true⟩ false (by decide) (by decide) (by c09_inst)
+example : codeOK scBase.answer .none 0 :=
+  C09_code_class_partial scBase (.finished true 1) .none ⟨0, 1, 1, 2, 2, true⟩ false (by decide) (by decide) (by c09_inst)
+example := C09_reported_code_exact scBase true 1 .solve (.withCode 42) ⟨500, 1, 0, 2, 0, true⟩ false (by decide)
+example := C09_complete scMessy (.raised false 5 .body .readError) ⟨500, 7, 0, 9, 0, true⟩ true (by decide)
+example := C09_fmtintcode_general scBase true 1 .body 250 ⟨250, 1, 0, 2, 0, true⟩ false (by decide)
+-- C09_optdims_general / C09_hdrdims_general
+example := C09_optdims_general { scBase with dims := ⟨7, 9⟩ } true 1 .plain ⟨500, 0, 0, 0, 0, true⟩ false (by decide)
+example := C09_hdrdims_general { scBase with dims := ⟨7, 9⟩, partialDims := ⟨0, 9⟩ } true 1 .stdExn ⟨500, 0, 0, 9, 0, true⟩ false (by decide)
+-- C09_exit_failure_ctor_reports_500 / C09_wrapped_infeas_keeps_200
+example := C09_exit_failure_ctor_reports_500 scBase true 1 .names .readError ⟨500, 1, 0, 2, 0, true⟩ false (by decide) (by decide)
+example := C09_wrapped_infeas_keeps_200 scBase true 1 .convert ⟨200, 1, 0, 2, 0, true⟩ false (by decide)
+-- C09_write_error_is_diagnosed: finished run and failed run, path opens but cannot be flushed
+example : conclude { scBase with out := ⟨true, false⟩ } (.finished true 1) = .stderrExit 1 :=
+  C09_write_error_is_diagnosed { scBase with out := ⟨true, false⟩ } (.finished true 1)
+    (by c09_inst) (by c09_inst) (by c09_inst) (by c09_inst) (by c09_inst) (by decide)
+example : conclude { scBase with out := ⟨true, false⟩ } (.raised false 9 .convert .infeas) = .stderrExit 1 :=
+  C09_write_error_is_diagnosed { scBase with out := ⟨true, false⟩ } (.raised false 9 .convert .infeas)
+    (by c09_inst) (by c09_inst) (by c09_inst) (by c09_inst) (by c09_inst) (by decide)
+-- C09_stderr_partial: before the header; at the constructor with exit code 200
+example := C09_stderr_partial scBase (.raised true 1 .header .readError) 1 (by decide) (by c09_inst)
+example := C09_stderr_partial scBase (.raised false 0 .ctor .infeas) 200 (by decide)
+  (by intro a w r c h hx; cases h; cases hx; decide)
+-- C09_crash_iff_foreign, both directions
+example : conclude scBase (.raised true 1 .solve .foreign) = .crash := (C09_crash_iff_foreign _ _).2 ⟨_, _, _, rfl⟩
+example : ∃ a w st, Ending.raised true 1 .report .foreign = .raised a w st .foreign :=
+  (C09_crash_iff_foreign scBase _).1 (by decide)
+-- C09_stdout_only_iff, both directions
+example : ∃ c s, conclude scBase (.raised false 8 .convert .infeas) = .stdoutOnly c s :=
+  (C09_stdout_only_iff _ _).2 ⟨false, 8, by decide, Or.inr ⟨_, _, rfl, by decide, by decide⟩⟩
+example := (C09_stdout_only_iff scBase (.finished false 2)).1 ⟨0, true, by decide⟩
+-- C09_file_whenever_possible
+example : ∃ f ech, conclude scMessy (.raised false 5 .report .stdExn) = .sol f ech :=
+  C09_file_whenever_possible _ _ (by c09_inst) (by c09_inst) (by c09_inst) (by decide) (by c09_inst)
+-- C09_success / C09_bad_option_ending / C09_suffix_exceptions_swallowed / option files / export only
+def scOK : Scenario :=
+  { flags := [.noecho], hasStub := true, ampl := true, opts := [.optfile [.ok, .wantsol 0] false, .tok .ok],
+    objnoTooBig := false, justExport := false, dims := ⟨3, 4⟩, partialDims := ⟨0, 0⟩, out := ⟨true, true⟩,
+    fault := none, answer := ⟨421, false, true⟩ }
+example := C09_success scOK
+  (by decide) (by decide) (by decide) (by decide) (by decide) (by decide) (by decide) (by decide) (by decide)
+example := C09_bad_option_ending { scBase with ampl := false, opts := [.tok (.wantsol 1), .optfile [.ok, .invalidValue, .ok] false] }
+  [.wantsol 1, .ok] .invalidValue [.ok] (by decide) (by decide) (by decide) (by decide) (by decide) (by decide)
+example := C09_suffix_exceptions_swallowed scMessy .readError (by decide)
+example := C09_optfile_unreadable_outcome { scBase with opts := [.tok .ok, .optfile [.wantsol 8] true, .tok .bad], dims := ⟨7, 9⟩ }
+  [.tok .ok] [.tok .bad] [.wantsol 8] (by decide) (by decide) (by decide) (by decide) (by decide) (by decide) (by decide) (by decide)
+example := C09_exportonly_run { scBase with justExport := true, opts := [.tok .ok] } (by decide) (by decide) (by decide) (by decide) (by decide) (by decide)
+-- parsing loops
+example : (parseOpts [.ok, .wantsol 3, .ok] 0).2 = none := (C09_parseOpts_ok_iff _ _).2 (by decide)
+example : parseOpts [.wantsol 3, .ok, .bad, .wantsol 1] 0 = (3, some .plain) :=
+  (C09_parseOpts_first_error _ _ _ _).2 ⟨[.wantsol 3, .ok], .bad, [.wantsol 1], rfl, by decide, by decide, by decide, by decide⟩
+example := (C09_parseFlags [.noecho, .wantsol] .invalid [.info] 0 (by decide)).2 (by decide)
 
 end MpVerif.C09
